@@ -6,6 +6,7 @@
  * fake_full_tx puts into the sized transaction one mock vkey witness per counted key (pairwise distinct mock keys),
    one bootstrap witness per Byron address, the combined scripts, and the body it was given.
 """
+import re
 import z3
 from engine import *
 from prove import Obligation
@@ -271,6 +272,7 @@ def obligations(ctx):
     declared_signers(ctx)
     mint_signers(ctx)
     input_reference_inputs(ctx)
+    mock_keys_injective(ctx)
 
 
 def declared_signers(ctx):
@@ -457,3 +459,42 @@ def input_reference_inputs(ctx):
     if nok < 20:
         ob.fail("only %d witness patterns executed" % nok)
     ob.finish(agg, lambda m, info=None: ("e2n_c18_ref_inputs", []))
+
+
+def mock_keys_injective(ctx):
+    """The size (and fee) of the transaction is measured with one mock key witness per counted key; the mock witnesses live in a
+    set-typed collection, so two counted keys may not get the same mock key: fake_raw_key_public, and the numbered vkey /
+    signature of the mock bootstrap witnesses, are injective in their index (every u64)."""
+    P = ctx.P
+    ob = Obligation(ctx, "c18_e2_mock_keys_are_injective", "two arbitrary indices (all u64)", ["fake_raw_key_public", "fake_vkey_numbered", "fake_signature"], fallback_native="e2n_c18_many_signers")
+    agg = Engine(P)
+    for fn, sink in (("fake_raw_key_public", r"PublicKey::from_bytes$"), ("fake_vkey_numbered", r"PublicKey::from_bytes$"), ("fake_signature", r"Ed25519Signature::from_bytes$")):
+        cands = [d for d in P.fns if re.search(r"(^|::)%s$" % fn, d)]
+        if not cands:
+            ob.fail("%s not found in the MIR" % fn); continue
+        runs = []
+        for who in ("i", "j"):
+            E = Engine(P, max_loop=70)
+            E.U = agg.U
+            x = E.sym_int("index_" + who, "u64")
+            cap = {}
+            def grab(E_, c, a, cap=cap):
+                b = VM.deref(E_, a[0])
+                cap["bytes"] = [VM.deref(E_, t).t for t in b.items] if isinstance(b, VSeq) else None
+                return VEnum("Result", "Ok", [VOpaque("key")])
+            E.extra_intrinsics[sink] = grab
+            E.extra_intrinsics[r"Vkey::new$"] = lambda E_, c, a: VOpaque("vkey")
+            E.extra_intrinsics[r"<impl \[u8\]>::to_vec$|<\[u8; \d+\]>::to_vec$"] = lambda E_, c, a: VM.deref(E_, a[0])
+            try:
+                outs = [o for o in E.explore(cands[0], lambda x=x: [VInt(x.t, "u64")], max_paths=20) if o.kind == "return"]
+            except Unsupported as e:
+                ob.fail("%s cannot be executed (%s)" % (fn, str(e)[:200])); runs = None; break
+            if len(outs) != 1 or not cap.get("bytes"):
+                ob.fail("%s: %d returning paths, key bytes %s" % (fn, len(outs), "captured" if cap.get("bytes") else "not captured")); runs = None; break
+            runs.append((x, cap["bytes"], outs[0].pc))
+            agg.stats["paths"] += E.stats["paths"]; agg.stats["functions"] |= E.stats["functions"]
+        if not runs:
+            continue
+        (xi, bi, pi), (xj, bj, pj) = runs
+        ob.vc("%s: equal mock bytes imply equal indices" % fn, list(pi) + list(pj) + [z3.And([a == b for a, b in zip(bi, bj)]), xi.t >= 0, xj.t >= 0, xi.t < (1 << 64), xj.t < (1 << 64)], xi.t == xj.t, info=dict(fn=fn))
+    ob.finish(agg, lambda m, info=None: ("e2n_c18_many_signers", []))
